@@ -1,6 +1,7 @@
 import EmmyVerif.Lemmas.IndexDb
 import EmmyVerif.Lemmas.IndexModule
 import EmmyVerif.Lemmas.IndexModuleKeys
+import EmmyVerif.Lemmas.IndexSym
 /-!
 # C10 — Removed files leave no trace
 
@@ -12,7 +13,9 @@ file whose analysis performs it) to the empty index. Tied to the Rust by the `in
 correspondence runs of `./check C10`; the analysis' cross-file inference is judged by the oracle only.
 
 Proved here: module index (no trace, exact node arena, entry counts), per-file maps, keyed vector maps (lookups and entry counts), nested per-file maps, id-owned maps
-(signatures). Not modelled yet: type / member / operator indexes.
+(signatures). Type / member / operator / metatable indexes: modelled at method granularity (`Index.Sym`) and tied by the
+`index.sym` correspondence run; proved: metatable `remove_exact`, two member-index witnesses; the rest of their
+`remove` behaviour is covered by the tie and the oracle only.
 The doc-property index violates the property (`C10_property_remove_erases_witness`): open finding.
 -/
 namespace Index
@@ -154,4 +157,33 @@ example : aget (remove (build [(1, .keyed 0 5 1), (2, .keyed 0 5 2), (1, .keyed 
 example : (remove (build [(1, .keyed 0 5 1), (2, .keyed 0 5 2), (1, .keyed 0 6 3)]) 1).keyed.length = 1 := by decide
 
 end Db
+
+namespace Sym
+
+/-- **C10 metatable index: `remove_exact`.** After `DbIndex::remove(f)` (type, member, operator and metatable
+indexes) the metatable map has no entry of `f` and every other entry unchanged. -/
+theorem C10_metatable_remove_exact (s : S) (f : File) (k : File × Nat) :
+    aget (remove s f).metatables k = if k.1 = f then none else aget s.metatables k :=
+  metatables_remove s f k
+
+/-- **Witness (open finding `class-bound-to-required-table`).** File 0 defines member (0,1) of its table; the
+analysis of file 1 re-owns it to class `T1` (`set_member_owner` + `add_member_to_owner`, both registered under
+the member's file 0). Removing file 1 undoes nothing: the member stays owned by `T1` and `owner_members[T1]`
+keeps it, although without file 1 it is owned by the table. -/
+theorem C10_member_reown_witness :
+    aget (remove (build reownHistory) 1).currentOwner (0, 1) = some (.type 1) ∧
+    (aget (remove (build reownHistory) 1).ownerMembers (.type 1)).isSome = true ∧
+    aget (build (reownHistory.take 1)).currentOwner (0, 1) = some (.elem 0 0) ∧
+    aget (build (reownHistory.take 1)).ownerMembers (.type 1) = none := by decide
+
+/-- **Witness (open finding `symbol-declared-in-several-files`, member part).** Two files define the same key
+of a global table (`G.x = …`, feature `FileDefine`): the second definition is not recorded under the owner
+(`add_member_to_owner` returns early), so after removing the first file the key is gone although the second
+file still defines it — a fresh analysis of the second file alone records it. -/
+theorem C10_member_define_order_witness :
+    let ms : List Mut := [.madd (.glob 0) { id := (0, 0), key := 0, feat := 1 }, .madd (.glob 0) { id := (1, 0), key := 0, feat := 1 }]
+    aget (remove (build ms) 0).ownerMembers (.glob 0) = none ∧
+    aget (build (ms.drop 1)).ownerMembers (.glob 0) = some [(0, .one (1, 0))] := by decide
+
+end Sym
 end Index
